@@ -12,6 +12,24 @@ NOT_APPLICABLE = {}
 HOOK_COMMITS = []
 
 CHECKS = {
+    "C01": {
+        "run": "^TestC01_",
+        "rule": ("cases = (constructor | catalogue row | subject kind and buffer size, producer word over {N1,N2,E,C} including illegal suffixes after a terminal, "
+                 "observer style, subscriber placement) enumerated exhaustively up to the stated word length, plus rapid-generated concurrent cases "
+                 "(2-4 goroutines each playing a word into one safe observable or subject, 5 repetitions each, slow Next callback). Non-trivial = the word "
+                 "has at least one notification after its first terminal, or >= 2 producers with a terminal among their words; distinct by descriptor hash."),
+        "quick": {"rapid": 300, "timeout": 600, "shards": 4},
+        "thorough": {"rapid": 5000, "timeout": 3000, "shards": 16},
+        "assumptions": COMMON_ASSUMPTIONS,
+        "technique": "property-based testing: exhaustive word enumeration + rapid-generated concurrent producers, judged by a grammar automaton and drop-hook accounting",
+        "level_text": ("Exploration. A raw recording observer (no status guard of its own) is attached through Subscribe to every observable constructor, every "
+                       "catalogue row and every subject kind/buffer size, and the producer plays every word of length <= 4 (quick) / 5 (thorough) over "
+                       "{Next 1, Next 2, Error, Complete}, most of which break the contract after the first terminal; the automaton Next* (Error|Complete)? "
+                       "must accept what the observer saw and, for bare observables and subjects, delivered + dropped-hook calls must equal what was emitted. "
+                       "Concurrent producers are generated for the safe constructors and the subjects (statistical)."),
+        "level_note": ("The concurrent part only sees the interleavings the Go scheduler produces (5 repetitions per generated case, widened by a slow callback); "
+                       "asynchronous / multi-source rows are covered by C02/C05, panicking callbacks by C07."),
+    },
     "C04": {
         "run": "^TestC04_",
         "rule": ("cases = (catalogue row, constructor variant, boundary parameters, input script, ending); enumerated exhaustively "
